@@ -651,6 +651,11 @@ class StmtMixin:
                     env.locals[nme] = self.fresh_value(kind, nme)
                 else:
                     env.locals[nme] = None  # unbound until assigned in the body
+            lv = env.locals.get(nme)
+            if isinstance(lv, VRef) and self.path.heap[lv.addr].val is not None:
+                # a container the function itself created for a local: not part of the caller-visible
+                # state the frame condition speaks about
+                self.local_cells.add(lv.addr)
         for e in mutated_exprs(st.body):
             try:
                 saved = self.path.assumptions[:]
